@@ -31,11 +31,33 @@ Theorem C18_override_commutes_classic : forall (T : Type) (NT : Num T) cont line
   state_of_classic cont lines' s0 = Some (apply cont o s).
 Proof. exact (@override_commutes_classic_lemma). Qed.
 
-(* ... and the text edit of a column-65 field of the classic file does parse to the edited value *)
-Theorem C18_edit_at65_reads_back_partial : forall (T : Type) (NT : Num T) (l text : lstr),
-  (65 <= List.length l)%nat ->
-  f65 (T:=T) (edit_at65 l text) = val_as_float text.
-Proof. exact (@edit_at65_reads_back). Qed.
+(* the classic file end to end, one override entry whose decimal text is written into the file by
+   [edit_lines] (three blanks and the text from column 65 of the parameter's line): every per-stage
+   parameter (TSUM with its derived total sum, BAS, VSCHWELL, DAYL, DLBAS, DRYSWELL, LUKRIT, LAIFKT,
+   WGMAX, KC) of every stage ... *)
+Theorem C18_classic_stage_override_commutes :
+  forall (T : Type) (NT : Num T) cont lines lines' (r : crop_rec T) s0 s p d i0 text v,
+  convert_core lines = Some r -> r_nrkom r <= 5 -> r_nrentw r <= 10 -> ago_ok (r_nrkom r) (r_ago r) = true ->
+  bbch_ok lines (ztn (r_nrentw r)) -> stale_ok lines s0 ->
+  stage_off p = Some d -> edit_lines lines p (S i0) 0 text = Some lines' -> val_as_float text = Some v ->
+  state_of_classic cont lines s0 = Some s ->
+  valid (single_stage p (S i0) v) (NRKOM s) (NRENTW s) = true ->
+  state_of_classic cont lines' s0 = Some (apply cont (single_stage p (S i0) v) s).
+Proof. exact (@classic_stage_override_commutes). Qed.
+
+(* ... and the base parameters MAXAMAX, MINTMP, WUMAXPF, VELOC (/200 on both paths), INITCONCNBIOM,
+   INITCONCNROOT (/100, perennial-continuation rule on both paths).  Partial: the yield fraction
+   (column 66) and the per-organ values (5-column fields) are covered at the text level by the
+   correspondence only (edit_lines = the edit made on disk; reader of the edited file = model). *)
+Theorem C18_classic_base_override_commutes_partial :
+  forall (T : Type) (NT : Num T) cont lines lines' (r : crop_rec T) s0 s p text v,
+  convert_core lines = Some r -> r_nrkom r <= 5 -> r_nrentw r <= 10 -> ago_ok (r_nrkom r) (r_ago r) = true ->
+  bbch_ok lines (ztn (r_nrentw r)) -> stale_ok lines s0 ->
+  base_line p <> None -> p <> YIFAK_ -> edit_lines lines p 0 0 text = Some lines' -> val_as_float text = Some v ->
+  state_of_classic cont lines s0 = Some s ->
+  valid (single_base p v) (NRKOM s) (NRENTW s) = true ->
+  state_of_classic cont lines' s0 = Some (apply cont (single_base p v) s).
+Proof. exact (@classic_base_override_commutes). Qed.
 
 (* validation precedes any assignment: an override set with one invalid entry changes nothing *)
 Theorem C18_invalid_rejected : forall (T : Type) (NT : Num T) cont (o : cropow T) s,
@@ -53,5 +75,6 @@ Proof. exact sample_override. Qed.
 
 Print Assumptions C18_override_commutes.
 Print Assumptions C18_override_commutes_classic.
-Print Assumptions C18_edit_at65_reads_back_partial.
+Print Assumptions C18_classic_stage_override_commutes.
+Print Assumptions C18_classic_base_override_commutes_partial.
 Print Assumptions C18_invalid_rejected.
